@@ -195,6 +195,9 @@ class Scope(object):
       else:
         # TODO(mdan): This is not accurate.
         self.parent.read.update(self.read - self.bound)
+        # Names declared nonlocal are bound here, but they are variables of an
+        # enclosing function: closure variables of every scope in between.
+        self.parent.read.update(self.read & self.nonlocals)
         self.parent.annotations.update(self.annotations - self.bound)
     self.is_final = True
 
